@@ -33,6 +33,10 @@ pub struct GraphCase {
     /// true: nodes whose label is a multiple of 3 also offer one shared zero-sized sentinel object
     #[serde(default)]
     pub sentinel: bool,
+    /// true: the edge lists go through the library's own sequence codec, written from an iterator that does not know
+    /// its length (marker-per-element form) and read as a Vec of node slots
+    #[serde(default)]
+    pub seq: bool,
     /// which reference site to corrupt (fault part) and how
     pub fault_sel: u16,
     pub fault_kind: u8,
@@ -45,6 +49,30 @@ pub struct Fl {
     pub tag: bool,
     /// every third node also offers one shared zero-sized object (a sentinel living in an Rc of its own)
     pub zst: bool,
+    /// edge lists through serialize_iterator (unknown length) / Vec::deserialize
+    pub seq: bool,
+}
+
+/// element of an edge list written through the library's sequence codec
+struct SeqSlotW(Rc<GNode>, Fl);
+impl desert::BinarySerializer for SeqSlotW {
+    fn serialize<O: BinaryOutput>(&self, ctx: &mut SerializationContext<O>) -> desert::Result<()> {
+        ser_slot(&self.0, ctx, self.1)
+    }
+}
+struct SeqSlotR(Rc<GNode>);
+thread_local! {
+    static SEQ_FL: std::cell::Cell<(bool, bool, bool)> = const { std::cell::Cell::new((false, false, false)) };
+    static SEQ_DECODED: RefCell<Vec<Rc<GNode>>> = const { RefCell::new(Vec::new()) };
+}
+impl desert::BinaryDeserializer for SeqSlotR {
+    fn deserialize(ctx: &mut DeserializationContext<'_>) -> desert::Result<Self> {
+        let (th, tag, zst) = SEQ_FL.with(|f| f.get());
+        let mut mine = Vec::new();
+        let r = de_slot(ctx, &mut mine, 1, Fl { th, tag, zst, seq: true });
+        SEQ_DECODED.with(|d| d.borrow_mut().extend(mine));
+        r.map(SeqSlotR)
+    }
 }
 
 /// a tracked object without any size
@@ -106,9 +134,16 @@ fn ser_slot<O: BinaryOutput>(node: &Rc<GNode>, ctx: &mut SerializationContext<O>
             ctx.store_ref_or_object(&*m)?;
         }
         let edges = node.edges.borrow();
-        ctx.write_var_u32(edges.len() as u32);
-        for child in edges.iter() {
-            ser_slot(child, ctx, fl)?;
+        if fl.seq {
+            // (a filter hides the length: the library writes the marker-per-element form, or a plain 0 when the
+            // iterator knows that it is empty)
+            let mut it = edges.iter().filter(|_| true).map(|c| SeqSlotW(c.clone(), fl));
+            desert::serialize_iterator(&mut it, ctx)?;
+        } else {
+            ctx.write_var_u32(edges.len() as u32);
+            for child in edges.iter() {
+                ser_slot(child, ctx, fl)?;
+            }
         }
     }
     Ok(())
@@ -157,10 +192,17 @@ fn de_slot(ctx: &mut DeserializationContext<'_>, all: &mut Vec<Rc<GNode>>, depth
                     }
                 }
             }
-            let n = ctx.read_var_u32()?;
-            for _ in 0..n {
-                let child = de_slot(ctx, all, depth + 1, fl)?;
-                node.edges.borrow_mut().push(child);
+            if fl.seq {
+                SEQ_FL.with(|f| f.set((fl.th, fl.tag, fl.zst)));
+                let kids = <Vec<SeqSlotR> as desert::BinaryDeserializer>::deserialize(ctx);
+                all.extend(SEQ_DECODED.with(|d| std::mem::take(&mut *d.borrow_mut())));
+                *node.edges.borrow_mut() = kids?.into_iter().map(|k| k.0).collect();
+            } else {
+                let n = ctx.read_var_u32()?;
+                for _ in 0..n {
+                    let child = de_slot(ctx, all, depth + 1, fl)?;
+                    node.edges.borrow_mut().push(child);
+                }
             }
             Ok(node)
         }
@@ -223,9 +265,22 @@ fn model_bytes(g: &Graph, fl: Fl) -> (Vec<u8>, Vec<(usize, usize)>, usize) {
                         }
                     }
                 }
-                var_u32(g.edges[n].len() as u32, out);
-                for t in &g.edges[n] {
-                    slot(*t, g, ids, next, out, ref_sites, fl, strings, marker);
+                if fl.seq {
+                    if g.edges[n].is_empty() {
+                        out.push(0);
+                    } else {
+                        vmodel::refcodec::var_i32(-1, out);
+                        for t in &g.edges[n] {
+                            out.push(1);
+                            slot(*t, g, ids, next, out, ref_sites, fl, strings, marker);
+                        }
+                        out.push(0);
+                    }
+                } else {
+                    var_u32(g.edges[n].len() as u32, out);
+                    for t in &g.edges[n] {
+                        slot(*t, g, ids, next, out, ref_sites, fl, strings, marker);
+                    }
                 }
             }
         }
@@ -313,7 +368,7 @@ pub fn check_graph(c: &GraphCase, acc: &mut Acc, record: bool) -> Verdict {
         return Verdict::Skip;
     }
     let th = c.tracked_header;
-    let fl = Fl { th, tag: c.tagged, zst: c.sentinel };
+    let fl = Fl { th, tag: c.tagged, zst: c.sentinel, seq: c.seq };
     MARKER_W.with(|m| *m.borrow_mut() = None);
     MARKER_R.with(|v| v.borrow_mut().clear());
     let (want, ref_sites, n_objects) = model_bytes(g, fl);
@@ -325,9 +380,9 @@ pub fn check_graph(c: &GraphCase, acc: &mut Acc, record: bool) -> Verdict {
             (true, _) => "cyclic",
             (false, true) => "shared, acyclic",
             _ => "tree",
-        }, if th { " / embedded header object tracked too" } else { "" }).to_string() + if c.tagged { " / deduplicated tags in the bodies" } else { "" } + if c.sentinel { " / shared zero-sized sentinel" } else { "" };
+        }, if th { " / embedded header object tracked too" } else { "" }).to_string() + if c.tagged { " / deduplicated tags in the bodies" } else { "" } + if c.sentinel { " / shared zero-sized sentinel" } else { "" } + if c.seq { " / edge lists in the marker-per-element form" } else { "" };
         let class = class.as_str();
-        acc.case(class, hash_json(&(g, th, c.tagged, c.sentinel)), cyc || shared);
+        acc.case(class, hash_json(&(g, th, c.tagged, c.sentinel, c.seq)), cyc || shared);
         if acc.wants_sample(class) {
             acc.sample(class, json!({"labels": g.labels, "edges": g.edges, "bytes_hex": hex(&want[..want.len().min(64)])}));
         }
@@ -407,10 +462,10 @@ pub fn check_graph(c: &GraphCase, acc: &mut Acc, record: bool) -> Verdict {
             {
                 let k = n_objects + 3;
                 let chain = Graph { labels: (0..k as u32).collect(), edges: (0..k).map(|i| if i + 1 < k { vec![i + 1] } else { vec![] }).collect() };
-                let (cb, _, _) = model_bytes(&chain, Fl { th: false, tag: false, zst: false });
+                let (cb, _, _) = model_bytes(&chain, Fl { th: false, tag: false, zst: false, seq: false });
                 let mut prior = Vec::new();
                 let mut pctx = DeserializationContext::new(&cb);
-                let _ = guarded(|| de_slot(&mut pctx, &mut prior, 0, Fl { th: false, tag: false, zst: false }).map(|_| ()));
+                let _ = guarded(|| de_slot(&mut pctx, &mut prior, 0, Fl { th: false, tag: false, zst: false, seq: false }).map(|_| ()));
                 drop(pctx);
                 unlink(&prior);
             }
@@ -485,7 +540,7 @@ pub fn run_c10(cx: &Cx) -> PropResult {
                 if idx % cx.shards != shard {
                     return true;
                 }
-                let c = GraphCase { g: g.clone(), tracked_header: idx % 3 == 0, tagged: idx % 4 == 1, sentinel: idx % 5 == 2, fault_sel: (idx * 7919) as u16, fault_kind: idx as u8 };
+                let c = GraphCase { g: g.clone(), tracked_header: idx % 3 == 0, tagged: idx % 4 == 1, sentinel: idx % 5 == 2, seq: idx % 7 == 3, fault_sel: (idx * 7919) as u16, fault_kind: idx as u8 };
                 match check_graph(&c, acc, true) {
                     Verdict::Fail(e) => {
                         acc.violation(e, to_json(&c));
@@ -498,7 +553,7 @@ pub fn run_c10(cx: &Cx) -> PropResult {
                 return;
             }
         }
-        let strat = (random_graph_strategy(), any::<bool>(), any::<bool>(), prop::bool::weighted(0.3), any::<u16>(), any::<u8>()).prop_map(|(g, tracked_header, tagged, sentinel, fault_sel, fault_kind)| GraphCase { g, tracked_header, tagged, sentinel, fault_sel, fault_kind }).boxed();
+        let strat = (random_graph_strategy(), any::<bool>(), any::<bool>(), prop::bool::weighted(0.3), prop::bool::weighted(0.3), any::<u16>(), any::<u8>()).prop_map(|(g, tracked_header, tagged, sentinel, seq, fault_sel, fault_kind)| GraphCase { g, tracked_header, tagged, sentinel, seq, fault_sel, fault_kind }).boxed();
         if drive(tag_seed(derive_seed(cx.seed, cx.prop, shard as u64, 0), 0), &strat, per_shard, acc, &|c: &GraphCase| to_json(c), &mut |c, a, r| check_graph(c, a, r)) {
             return;
         }
@@ -532,7 +587,7 @@ pub fn run_c10(cx: &Cx) -> PropResult {
             root.extend((b - 4)..(b + 4));
             let mut edges = vec![root];
             edges.extend((0..w).map(|_| Vec::new()));
-            let c = GraphCase { g: Graph { labels: (0..=w as u32).map(|i| i.wrapping_mul(2_654_435_761) | 1).collect(), edges }, tracked_header: false, tagged: false, sentinel: false, fault_sel: 5, fault_kind: 1 };
+            let c = GraphCase { g: Graph { labels: (0..=w as u32).map(|i| i.wrapping_mul(2_654_435_761) | 1).collect(), edges }, tracked_header: false, tagged: false, sentinel: false, seq: false, fault_sel: 5, fault_kind: 1 };
             if let Verdict::Fail(e) = check_graph(&c, acc, true) {
                 acc.violation(e, to_json(&c));
             }
@@ -658,7 +713,19 @@ fn evo_model(g: &Graph) -> Vec<u8> {
         }
         out
     }
-    slot(0, g, &mut vec![None; g.labels.len()], &mut 0)
+    let (mut ids, mut next) = (vec![None; g.labels.len()], 0);
+    evo_roots(g).into_iter().flat_map(|r| slot(r, g, &mut ids, &mut next)).collect()
+}
+
+/// the values written one after the other through ONE context: the root, and in two cases out of three a second
+/// node and the root again (whatever the first value introduced is cited by the later ones)
+fn evo_roots(g: &Graph) -> Vec<usize> {
+    let n = g.labels.len();
+    if n >= 2 && g.labels[0] % 3 != 0 {
+        vec![0, g.labels[1] as usize % n, 0]
+    } else {
+        vec![0]
+    }
 }
 
 /// graphs whose nodes are evolved records (bytes against the model, shape after decoding)
@@ -666,14 +733,21 @@ pub fn check_evo_graph(g: &Graph, acc: &mut Acc, record: bool) -> Verdict {
     if g.labels.is_empty() || g.edges.len() != g.labels.len() || g.edges.iter().flatten().any(|t| *t >= g.labels.len()) {
         return Verdict::Skip;
     }
+    let roots = evo_roots(g);
     if record {
         acc.case("nodes that are evolved records (a chunk inside a chunk per level)", hash_json(&(g, "evo")), g.labels.len() >= 2);
+        if roots.len() > 1 {
+            acc.bump("evolved_record_graphs_written_as_several_values_through_one_context", 1);
+        }
     }
     let want = evo_model(g);
     let nodes = build(g);
     let enc = guarded(|| {
         let mut ctx = SerializationContext::new(Vec::new());
-        desert::BinarySerializer::serialize(&EvoNode(nodes[0].clone()), &mut ctx).map(|_| ctx.into_output())
+        for r in &roots {
+            desert::BinarySerializer::serialize(&EvoNode(nodes[*r].clone()), &mut ctx)?;
+        }
+        Ok::<_, desert::Error>(ctx.into_output())
     });
     let res = (|| {
         let bytes = match enc {
@@ -685,13 +759,53 @@ pub fn check_evo_graph(g: &Graph, acc: &mut Acc, record: bool) -> Verdict {
             return Verdict::Fail(format!("a graph of {} evolved-record nodes encodes as {} bytes; the model gives {} (first difference at {:?})", g.labels.len(), bytes.len(), want.len(), bytes.iter().zip(&want).position(|(a, b)| a != b)));
         }
         DECODED.with(|d| d.borrow_mut().clear());
-        let dec = guarded(|| desert::deserialize::<EvoNodeR>(&bytes));
+        let dec = guarded(|| {
+            let mut ctx = DeserializationContext::new(&bytes);
+            let mut out = Vec::new();
+            for _ in &roots {
+                out.push(<EvoNodeR as desert::BinaryDeserializer>::deserialize(&mut ctx)?);
+            }
+            Ok::<_, desert::Error>(out)
+        });
         let all = DECODED.with(|d| std::mem::take(&mut *d.borrow_mut()));
         let v = match dec {
-            Ok(Ok(root)) => match isomorphic(g, &root.0) {
-                Ok(()) => Verdict::Pass,
-                Err(e) => Verdict::Fail(format!("decoded graph of evolved-record nodes is not isomorphic: {e}")),
-            },
+            Ok(Ok(got)) => {
+                let mut v = match isomorphic(g, &got[0].0) {
+                    Ok(()) => Verdict::Pass,
+                    Err(e) => Verdict::Fail(format!("decoded graph of evolved-record nodes is not isomorphic: {e}")),
+                };
+                // later values: the same objects as the ones the first value introduced (the original node i of a
+                // later root is reachable from root 0 or not; either way one decoded object per original node)
+                if matches!(v, Verdict::Pass) {
+                    let mut seen: std::collections::HashMap<usize, *const GNode> = std::collections::HashMap::new();
+                    let mut stack: Vec<(usize, Rc<GNode>)> = roots.iter().zip(&got).map(|(r, d)| (*r, d.0.clone())).collect();
+                    while let Some((orig, d)) = stack.pop() {
+                        match seen.get(&orig) {
+                            Some(p) if *p == Rc::as_ptr(&d) => continue,
+                            Some(_) => {
+                                v = Verdict::Fail(format!("values {:?} written through one context: original node {orig} was decoded as two different objects", roots));
+                                break;
+                            }
+                            None => {
+                                seen.insert(orig, Rc::as_ptr(&d));
+                            }
+                        }
+                        let kids = d.edges.borrow();
+                        if d.head.label != g.labels[orig] || kids.len() != g.edges[orig].len() {
+                            v = Verdict::Fail(format!("values {:?} written through one context: node {orig} decoded with label {} and {} edges", roots, d.head.label, kids.len()));
+                            break;
+                        }
+                        for (t, k) in g.edges[orig].iter().zip(kids.iter()) {
+                            stack.push((*t, k.clone()));
+                        }
+                    }
+                    let distinct: std::collections::HashSet<*const GNode> = seen.values().cloned().collect();
+                    if matches!(v, Verdict::Pass) && distinct.len() != seen.len() {
+                        v = Verdict::Fail(format!("values {:?} written through one context: two original nodes share one decoded object", roots));
+                    }
+                }
+                v
+            }
             Ok(Err(e)) => Verdict::Fail(format!("decoding a graph of {} evolved-record nodes (first-encounter depth up to {}) failed: {e:?}", g.labels.len(), g.labels.len())),
             Err(p) => Verdict::Fail(format!("decoding a graph of evolved-record nodes panicked: {p}")),
         };
@@ -713,13 +827,13 @@ thread_local! {
 pub struct Slot(pub Rc<GNode>);
 impl desert::BinarySerializer for Slot {
     fn serialize<O: BinaryOutput>(&self, ctx: &mut SerializationContext<O>) -> desert::Result<()> {
-        ser_slot(&self.0, ctx, Fl { th: false, tag: false, zst: false })
+        ser_slot(&self.0, ctx, Fl { th: false, tag: false, zst: false, seq: false })
     }
 }
 impl desert::BinaryDeserializer for Slot {
     fn deserialize(ctx: &mut DeserializationContext<'_>) -> desert::Result<Self> {
         let mut all = DECODED.with(|d| std::mem::take(&mut *d.borrow_mut()));
-        let r = de_slot(ctx, &mut all, 0, Fl { th: false, tag: false, zst: false });
+        let r = de_slot(ctx, &mut all, 0, Fl { th: false, tag: false, zst: false, seq: false });
         DECODED.with(|d| *d.borrow_mut() = all);
         r.map(Slot)
     }
